@@ -133,7 +133,8 @@ AWS_STATIC_IMPL uint64_t aws_add_u64_saturating(uint64_t a, uint64_t b) {
 
     __asm__("addq %[arg1], %[arg2]\n" /* [arga] = [arga] + [argb] */
             "cmovc %q[saturate], %[arg2]\n"
-            : /* in/out: %rax = a, out: rdx (ignored) */ [arg2] "+r"(b)
+            : /* in/out; early clobber: written before [saturate] is read, so the two must not share a register
+                 (the compiler may put them in one when b is known to be ~0) */ [arg2] "+&r"(b)
             : /* in: register only */ [arg1] "r"(a),
               /* in: saturation value (reg/memory) */ [saturate] "rm"(~0LL)
             : /* clobbers: cc */ "cc");
